@@ -106,6 +106,12 @@ def tag_new_handles(net):
     return new
 
 
+def resolve(net, obj):
+    """the local object behind a (possibly remote) reference; identity on the in-process network"""
+    r = getattr(net, "resolver", None)
+    return r(obj) if r else obj
+
+
 def node_index(net, host):
     return net.names.index(host.name)
 
@@ -116,7 +122,7 @@ def dump(net):
     for node in net.nodes:
         virt = []
         for q in node.virtQubits:
-            sq = q.simQubit
+            sq = resolve(net, q.simQubit)
             virt.append((net.hid.get(id(q), -1), q.num, node_index(net, q.simNode), sq.simNum))
         sims = [(s.simNum, s.register.num, s.num) for s in node.simQubits]
         regs = []
@@ -156,11 +162,11 @@ def object_graph_invariant(net):
             if q.active != 1:
                 bad.append("inactive qubit in list at node %d" % i)
             sn = net.nodes[node_index(net, q.simNode)]
-            if not any(q.simQubit is s for s in sn.simQubits):
+            if not any(resolve(net, q.simQubit) is s for s in sn.simQubits):
                 bad.append("held qubit %d at node %d backed by a sim qubit that is not in its simulating node's list" % (q.num, i))
-            if id(q.simQubit) in backing:
+            if id(resolve(net, q.simQubit)) in backing:
                 bad.append("sim qubit backs two held qubits")
-            backing[id(q.simQubit)] = q
+            backing[id(resolve(net, q.simQubit))] = q
         if node.numRegs != len(node.registers):
             bad.append("numRegs %d != len(registers) %d at node %d" % (node.numRegs, len(node.registers), i))
         byreg = {}
